@@ -1,6 +1,7 @@
 package c06
 
 import (
+	"github.com/gookit/rux"
 	"testing"
 
 	"verifharness/model"
@@ -38,5 +39,26 @@ func TestRegress(t *testing.T) {
 				}
 			}
 		})
+	}
+}
+
+// D24: the route cache kept its entries when a route was registered after requests had been served: a path cached
+// from a lower-priority pattern went on being answered by it although the new route wins on the same router
+// without caching.
+func TestRegressRouteAddedAfterCachedRequest(t *testing.T) {
+	for _, caching := range []bool{false, true} {
+		var opts []func(*rux.Router)
+		if caching {
+			opts = append(opts, rux.CachingWithNum(1))
+		}
+		r := rux.New(opts...)
+		r.Any("/[a/{id}]", func(c *rux.Context) { c.WriteString("old") })
+		if got := serve(r, "POST", "/a/x").Body.String(); got != "old" {
+			t.Fatalf("caching=%v: before the late route: %q", caching, got)
+		}
+		r.POST("/a/{id}", func(c *rux.Context) { c.WriteString("new") })
+		if got := serve(r, "POST", "/a/x").Body.String(); got != "new" {
+			t.Errorf("caching=%v: POST /a/x after POST /a/{id} was added is answered by %q, the pattern with a literal first segment wins", caching, got)
+		}
 	}
 }
